@@ -14,6 +14,9 @@ TNext ==
   /\ \/ Ev.ev = "reset" /\ PReset
      \/ Ev.ev = "start" /\ PStart(Ev.gc)
      \/ Ev.ev = "copy_begin" /\ PCopyBegin(Ev.c)
+     \/ Ev.ev = "copy_call" /\ PCopyCall(Ev.c)
+     \/ Ev.ev = "copy_active" /\ PCopyActive(Ev.c)
+     \/ Ev.ev = "close_mid" /\ PCloseMid(Ev.files, Ev.other)
      \/ Ev.ev = "copy_end" /\ PCopyEnd(Ev.c, Ev.files)
      \/ Ev.ev = "op" /\ POp(Ev.op, Ev.d)
      \/ Ev.ev = "close" /\ PClose(Ev.b_files, Ev.b_other, Ev.a_files, Ev.a_other, Ev.idx, Ev.ep, Ev.ec, Ev.ek)
